@@ -101,7 +101,11 @@ func (g *gen) makeGlobals() {
 			g.feat("global-init-recursive-func")
 		}
 		v := &variable{name: g.newID("g"), t: TInt}
-		if r.Intn(2) == 0 {
+		if r.Intn(3) == 0 {
+			// a function literal whose parameter has the name of a package-level variable used later in the expression
+			g.decls = append(g.decls, fmt.Sprintf("var %s = func(%s int) int {\n\treturn %s + 1\n}(%s(%d)) + %s", v.name, base.name, base.name, f1, r.Intn(4), base.name))
+			g.feat("global-init-shadowing-param")
+		} else if r.Intn(2) == 0 {
 			g.decls = append(g.decls, fmt.Sprintf("var %s = %s(%d)", v.name, f1, r.Intn(4)))
 		} else {
 			g.decls = append(g.decls, fmt.Sprintf("var %s = func() int {\n\treturn %s(%d)\n}()", v.name, f1, r.Intn(4)))
